@@ -10,16 +10,21 @@ import Garnish.Lemmas.ParserB9
 namespace Garnish.Spec
 open Garnish Garnish.Gen Garnish.Model.Parser
 
-def ExprOK (toks : List PToken) (ls : Bool) : Prop :=
+/-- what may precede the first token of a frame's expression -/
+def StartPrev (st : PState) : Prop :=
+  st.previousSecondDef = .none ∨ st.previousSecondDef = .startGrouping ∨ st.previousSecondDef = .startSideEffect ∨
+    st.previousSecondDef = .whitespace ∨ st.previousSecondDef = .annotation ∨ st.previousSecondDef = .subexpression
+
+def ExprOK (inG : Bool) (toks : List PToken) (ls : Bool) : Prop :=
   ∀ (st0 : PState) (ug p : Option Nat) (base : Nat), OpenB st0 ug → FrameStart st0 ug p base → AllPrio st0.nodes →
-    CGOK st0 → ∀ (pos : Nat), NumberedFrom pos toks → ∀ (rest : List PToken),
+    CGOK st0 → KindOK st0 ug inG → StartPrev st0 → ∀ (pos : Nat), NumberedFrom pos toks → ∀ (rest : List PToken),
     ∃ (st1 : PState) (E : Tree) (re cb : Nat),
       loop st0 (toks ++ rest) = loop st1 rest ∧ UInv st1 ug p base E re cb ∧
       st1.groupStack = st0.groupStack ∧ st1.currentGroup = st0.currentGroup ∧
       (∀ j, j + 1 < base → st1.nodes[j]? = st0.nodes[j]?) ∧
       (∀ j, j < base → (st1.nodes[j]?).map (setRight none) = (st0.nodes[j]?).map (setRight none)) ∧
       (ls = false → Ready st1) ∧
-      ∀ (f : Frame) (stack : List Frame) (restR : List PToken), f.cur = .nil → f.last = .start →
+      ∀ (f : Frame) (stack : List Frame) (restR : List PToken), f.cur = .nil → f.last = .start → f.inGroup = inG →
         refLoop Table.gen f stack pos (toks ++ restR) =
           refLoop Table.gen { f with cur := toRG (dfOf st1.nodes) E, last := if ls then .suffix else .operand, ws := false,
                                      prevSep := false } stack (pos + toks.length) restR
@@ -47,24 +52,24 @@ theorem FrameStart.above_ne {st0 : PState} {ug p : Option Nat} {base : Nat} (h :
     rw [e] at hgl; cases hgl
 
 /-- the first operand of a frame is an expression -/
-theorem expr_first {x : List PToken} (hx : OpdOK x) : ExprOK x false := by
-  intro st0 ug p base hO hfs hprios hcg pos hnum rest
+theorem expr_first {inG : Bool} {x : List PToken} (hx : OpdOK x) : ExprOK inG x false := by
+  intro st0 ug p base hO hfs hprios hcg _ _ pos hnum rest
   obtain ⟨st2, sub, cb, P, hloop, hres, hP, href⟩ := hx st0 ug hO hprios hcg pos hnum rest
   obtain ⟨hb, _⟩ := hfs.base_eq
   refine ⟨st2, sub, base, cb, hloop, uinv_first hfs hO.hug hres, hres.gs, hres.cg,
     fun j hj => hres.below j (by omega), fun j hj => by rw [hres.below j (by omega)], fun _ => hres.ready, ?_⟩
-  intro f stack restR hc hl
+  intro f stack restR hc hl _
   rw [href f stack restR (Or.inr (Or.inl hl)), hc, hP.nil hfs.above_ne]
   rfl
 
 /-- an expression followed by a suffix operator -/
-theorem expr_suf {e : List PToken} {ls : Bool} (he : ExprOK e ls) (s : PToken) (hs : isSuffixTok s = true) :
-    ExprOK (e ++ [s]) true := by
-  intro st0 ug p base hO hfs hprios hcg pos hnum rest
+theorem expr_suf {inG : Bool} {e : List PToken} {ls : Bool} (he : ExprOK inG e ls) (s : PToken) (hs : isSuffixTok s = true) :
+    ExprOK inG (e ++ [s]) true := by
+  intro st0 ug p base hO hfs hprios hcg hk hsp pos hnum rest
   have hnume := numbered_prefix e [s] pos hnum
   have hscol : s.col = pos + e.length := (numbered_append e [s] pos hnum).1
   obtain ⟨stE, E, re, cb, hloopE, hinvE, hgsE, hcgE, ho1E, ho2E, hrdE, hrefE⟩ :=
-    he st0 ug p base hO hfs hprios hcg pos hnume ([s] ++ rest)
+    he st0 ug p base hO hfs hprios hcg hk hsp pos hnume ([s] ++ rest)
   obtain ⟨q, st1, re', hq, h1, hinv1, hs1, hgs1, hcg1, hdefs1, ho11, ho21, hdn⟩ :=
     suffix_effectU hinvE s rest.isEmpty hs
   have hsd : (getDefinition s.type).2 = .unarySuffix := by unfold isSuffixTok at hs; simpa using hs
@@ -73,15 +78,15 @@ theorem expr_suf {e : List PToken} {ls : Bool} (he : ExprOK e ls) (s : PToken) (
     fun j hj => by rw [ho21 j hj, ho1E j hj], fun j hj => by rw [ho11 j hj, ho2E j hj], (fun h => Bool.noConfusion h), ?_⟩
   · rw [List.append_assoc, hloopE]
     simp only [List.cons_append, List.nil_append, loop, h1, Outcome.bind]
-  · intro f stack restR hc hl
-    rw [List.append_assoc, hrefE f stack ([s] ++ restR) hc hl]
+  · intro f stack restR hc hl hig
+    rw [List.append_assoc, hrefE f stack ([s] ++ restR) hc hl hig]
     conv => lhs; unfold refLoop
     simp only [List.cons_append, List.nil_append]
     rw [ref_suffix_stepK _ stack _ q s restR hs hq (by cases ls <;> simp)]
     simp only [Outcome.bind, List.length_append, List.length_cons, List.length_nil, if_true]
     have hcong : ∀ i ∈ E.inorder, dfOf stE.nodes i = dfOf st1.nodes i := by
       intro i hi
-      have := hdefs1 i ((hinvE.n.mem i).mp hi).2
+      have := hdefs1 i (hinvE.n.mem i hi).2
       simp only [dfOf, this]
     have hcur : attach Table.gen q false (getDefinition s.type).1 (pos + e.length) (toRG (dfOf stE.nodes) E) =
         toRG (dfOf st1.nodes) (insertC cb (prioAt stE.nodes) q false stE.nodes.size s.col .nil E) := by
@@ -90,7 +95,7 @@ theorem expr_suf {e : List PToken} {ls : Bool} (he : ExprOK e ls) (s : PToken) (
         (by rw [hdn]; exact hnb) E
       · intro i hi
         rw [← hcong i hi]
-        exact prio_dfOf hinvE.n.prios ((hinvE.n.mem i).mp hi).2
+        exact prio_dfOf hinvE.n.prios (hinvE.n.mem i hi).2
       · exact hinvE.spine.congr hcong
     rw [hcur]
     rfl
@@ -102,11 +107,11 @@ theorem OpdRes.transfer {s s' s2 : PState} {sub : Tree} {cb : Nat} (h : OpdRes s
     by rw [h3]; exact h.gs, by rw [h4]; exact h.cg, h.bot, h.spine, h.prios, h.prev, h.ready⟩
 
 /-- an expression followed by a binary operator and its right operand -/
-theorem expr_bin {e x ws1 ws2 : List PToken} {ls : Bool} {o : PToken} (he : ExprOK e ls) (hx : OpdOK x)
+theorem expr_bin {inG : Bool} {e x ws1 ws2 : List PToken} {ls : Bool} {o : PToken} (he : ExprOK inG e ls) (hx : OpdOK x)
     (ho : isBin3Tok o = true) (hw1 : ∀ w ∈ ws1, isTriviaTok w = true) (hw2 : ∀ w ∈ ws2, isTriviaTok w = true)
     (hxne : x ≠ []) :
-    ExprOK (e ++ (ws1 ++ (o :: (ws2 ++ x)))) false := by
-  intro st0 ug p base hO hfs hprios hcg pos hnum rest
+    ExprOK inG (e ++ (ws1 ++ (o :: (ws2 ++ x)))) false := by
+  intro st0 ug p base hO hfs hprios hcg hk hsp pos hnum rest
   -- positions
   have hnume := numbered_prefix e _ pos hnum
   have hnum1 := numbered_append e _ pos hnum
@@ -115,7 +120,7 @@ theorem expr_bin {e x ws1 ws2 : List PToken} {ls : Bool} {o : PToken} (he : Expr
   have hnum3 := numbered_append ws2 x _ hnum2.2
   -- the expression so far
   obtain ⟨stE, E, re, cb, hloopE, hinvE, hgsE, hcgE, ho1E, ho2E, hrdE, hrefE⟩ :=
-    he st0 ug p base hO hfs hprios hcg pos hnume (ws1 ++ (o :: (ws2 ++ x)) ++ rest)
+    he st0 ug p base hO hfs hprios hcg hk hsp pos hnume (ws1 ++ (o :: (ws2 ++ x)) ++ rest)
   -- trivia, operator
   obtain ⟨stE', hloopW1, hinvE', hnE', hgsE', hcgE'⟩ := trivia_runU ws1 stE ((o :: (ws2 ++ x)) ++ rest) hinvE hw1
   obtain ⟨q, st1, hq, h1, hO1, hprios1, hs1, hgs1, hcg1, habove1, hK⟩ := bin_stepU hinvE' ho
@@ -147,9 +152,9 @@ theorem expr_bin {e x ws1 ws2 : List PToken} {ls : Bool} {o : PToken} (he : Expr
   · rw [hres1.gs, hgs1, hgsE', hgsE]
   · rw [hres1.cg, hcg1, hcgE', hcgE]
   · -- the reference parser
-    intro f stack restR hc hl
+    intro f stack restR hc hl hig
     have e1 : e ++ (ws1 ++ (o :: (ws2 ++ x))) ++ restR = e ++ (ws1 ++ (o :: (ws2 ++ x ++ restR))) := by simp
-    rw [e1, hrefE f stack _ hc hl]
+    rw [e1, hrefE f stack _ hc hl hig]
     obtain ⟨b1, hb1⟩ := ref_skipK ws1
       { f with cur := toRG (dfOf stE.nodes) E, last := if ls then .suffix else .operand, ws := false, prevSep := false }
       stack (pos + e.length) (o :: (ws2 ++ x ++ restR)) hw1
@@ -165,7 +170,7 @@ theorem expr_bin {e x ws1 ws2 : List PToken} {ls : Bool} {o : PToken} (he : Expr
     rw [List.append_assoc, hb2, hrefX _ stack restR (lastAfter_open _)]
     have hcong : ∀ i ∈ E.inorder, dfOf stE.nodes i = dfOf st2.nodes i := by
       intro i hi
-      have := hdefs2 i ((hinvE.n.mem i).mp hi).2
+      have := hdefs2 i (hinvE.n.mem i hi).2
       simp only [dfOf, this]
     have habove : aboveDef st1' = dfOf st2.nodes stE.nodes.size := by
       rw [hdn, ← habove1]; unfold aboveDef; rw [hn1']
@@ -178,7 +183,7 @@ theorem expr_bin {e x ws1 ws2 : List PToken} {ls : Bool} {o : PToken} (he : Expr
         (by rw [← habove]; exact hP) (by rw [hdn]; exact hnb) E
       · intro i hi
         rw [← hcong i hi]
-        exact prio_dfOf hinvE.n.prios ((hinvE.n.mem i).mp hi).2
+        exact prio_dfOf hinvE.n.prios (hinvE.n.mem i hi).2
       · exact hinvE.spine.congr hcong
     rw [hcur]
     have hlen : pos + e.length + ws1.length + 1 + ws2.length + x.length =
